@@ -47,12 +47,15 @@ type oracles struct {
 
 	stateSigs map[string]bool
 
-	lastProcessed []string
-	firstSeen     map[string]string
-	changedAt     map[string][]int // tag -> steps at which its matches or definition changed
-	flagged       map[string]bool
-	onDemandNote  string
-	lastAPI       *struct {
+	lastProcessed                                 []string
+	importWasInFlight, cleanRestartImportInFlight bool
+	preRestart                                    *modelAt
+	inRestart                                     bool
+	firstSeen                                     map[string]string
+	changedAt                                     map[string][]int // tag -> steps at which its matches or definition changed
+	flagged                                       map[string]bool
+	onDemandNote                                  string
+	lastAPI                                       *struct {
 		op Op
 		r  OpResult
 	}
@@ -130,6 +133,9 @@ func (o *oracles) start() {
 		return
 	}
 	o.refreshState()
+	if o.s.crash != nil {
+		o.s.crash.models = append(o.s.crash.models, o.crashModel())
+	}
 }
 
 func setOf(l []uint) map[uint]bool {
@@ -407,6 +413,9 @@ func (o *oracles) afterStep(st stepRef) {
 		return
 	}
 	o.processed()
+	if o.s.crash != nil {
+		o.s.crash.models = append(o.s.crash.models, o.crashModel())
+	}
 	o.noteTagChanges()
 	if os.Getenv("VERIF_TRACE") != "" {
 		fmt.Fprintf(os.Stderr, "TRACE step %d %s:", o.s.stepNo, st.label)
